@@ -63,6 +63,7 @@ class _Fn:
     def __init__(self, fn):
         self.names = {n.id for n in ast.walk(fn) if isinstance(n, ast.Name)}
         self.names |= {a.arg for a in ast.walk(fn) if isinstance(a, ast.arg)}
+        self.params = {a.arg for a in ast.walk(fn.args) if isinstance(a, ast.arg)}
         self.k = 0
 
     def fresh(self, stem="c"):
@@ -554,6 +555,8 @@ def _dict_loop(st, fx):
         return None
     D, kind = dv
     dp = access_path(D)
+    if root_name(D) not in fx.params:
+        return None          # a dictionary the function builds itself is left as written (the rules follow its construction)
     if kind == "keys":
         st.iter = D
         return [st]
@@ -590,6 +593,8 @@ class _DictComp(ast.NodeTransformer):
             if dv is None or g.is_async:
                 continue
             D, kind = dv
+            if root_name(D) not in self.fx.params:
+                continue
             if kind == "keys":
                 g.iter = D
                 continue
@@ -624,8 +629,77 @@ class _DictComp(ast.NodeTransformer):
 
     visit_ListComp = visit_SetComp = visit_GeneratorExp = visit_DictComp = _comp
 
+    def visit_Call(self, n):
+        self.generic_visit(n)
+        # list(D.values()) -> [D[k] for k in D]
+        if isinstance(n.func, ast.Name) and n.func.id == "list" and len(n.args) == 1 and not n.keywords:
+            dv = _dict_view(n.args[0])
+            if dv is not None and dv[1] == "values" and root_name(dv[0]) in self.fx.params:
+                k = self.fx.fresh("k")
+                D = dv[0]
+                STATS["dict_loop"] = STATS.get("dict_loop", 0) + 1
+                return _loc(ast.ListComp(elt=ast.Subscript(value=copy.deepcopy(D), slice=ast.Name(id=k, ctx=ast.Load()), ctx=ast.Load()),
+                                         generators=[ast.comprehension(target=ast.Name(id=k, ctx=ast.Store()), iter=copy.deepcopy(D), ifs=[], is_async=0)]), n)
+        return n
+
     def visit_Lambda(self, n):
         return n
+
+
+def _combinations_loop(st, fx):
+    """for i, j in itertools.combinations(range(N), 2)  ->  for i in range(N - 1): for j in range(i + 1, N)
+    (the pairs i < j in lexicographic order); wrapped in enumerate(.., start) a pair counter is kept beside the loops"""
+    if not (isinstance(st, ast.For) and not st.orelse):
+        return None
+    it, tgt = st.iter, st.target
+    counter = start = None
+    if isinstance(it, ast.Call) and isinstance(it.func, ast.Name) and it.func.id == "enumerate" and it.args and isinstance(tgt, ast.Tuple) and len(tgt.elts) == 2 \
+            and isinstance(tgt.elts[0], ast.Name):
+        start = ast.Constant(value=0)
+        if len(it.args) == 2:
+            start = it.args[1]
+        for kw in it.keywords:
+            if kw.arg == "start":
+                start = kw.value
+            else:
+                return None
+        if not (isinstance(start, ast.Constant) and isinstance(start.value, int)):
+            return None
+        counter = tgt.elts[0].id
+        it, tgt = it.args[0], tgt.elts[1]
+    if not (isinstance(it, ast.Call) and (access_path(it.func) or "").split(".")[-1] == "combinations" and len(it.args) == 2 and not it.keywords
+            and isinstance(it.args[1], ast.Constant) and it.args[1].value == 2):
+        return None
+    rng = it.args[0]
+    if not (isinstance(rng, ast.Call) and isinstance(rng.func, ast.Name) and rng.func.id == "range" and len(rng.args) == 1 and _no_call(rng.args[0])):
+        return None
+    if not (isinstance(tgt, ast.Tuple) and len(tgt.elts) == 2 and all(isinstance(t, ast.Name) for t in tgt.elts)):
+        return None
+    i, j = tgt.elts[0].id, tgt.elts[1].id
+    N = rng.args[0]
+    names = {i, j} | ({counter} if counter else set())
+    for b in st.body:
+        for n in ast.walk(b):
+            if isinstance(n, (ast.Continue, ast.Break, ast.FunctionDef, ast.Lambda)):
+                return None
+            if isinstance(n, ast.Name) and not isinstance(n.ctx, ast.Load) and (n.id in names or n.id in {m.id for m in ast.walk(N) if isinstance(m, ast.Name)}):
+                return None
+    body = list(st.body)
+    pre = []
+    if counter:
+        # the counter holds the number of the current pair; it is advanced at the end of the pair's iteration
+        pre = [ast.Assign(targets=[ast.Name(id=counter, ctx=ast.Store())], value=copy.deepcopy(start))]
+        body = body + [ast.AugAssign(target=ast.Name(id=counter, ctx=ast.Store()), op=ast.Add(), value=ast.Constant(value=1))]
+    inner = ast.For(target=ast.Name(id=j, ctx=ast.Store()),
+                    iter=ast.Call(func=ast.Name(id="range", ctx=ast.Load()),
+                                  args=[ast.BinOp(left=ast.Name(id=i, ctx=ast.Load()), op=ast.Add(), right=ast.Constant(value=1)), copy.deepcopy(N)], keywords=[]),
+                    body=body, orelse=[])
+    outer = ast.For(target=ast.Name(id=i, ctx=ast.Store()),
+                    iter=ast.Call(func=ast.Name(id="range", ctx=ast.Load()),
+                                  args=[ast.BinOp(left=copy.deepcopy(N), op=ast.Sub(), right=ast.Constant(value=1))], keywords=[]),
+                    body=[inner], orelse=[])
+    STATS["combinations"] = STATS.get("combinations", 0) + 1
+    return [_loc(x, st) for x in pre + [outer]]
 
 
 def _terminates(stmts):
@@ -913,6 +987,13 @@ def _block(stmts, fx, occ, top=False):
                 del stmts[init]
                 k -= 1
         elif isinstance(stmts[k], ast.For):
+            idx_ = _unenum(stmts[k])
+            if idx_ is not None and occ.get(idx_, 0) <= 1:
+                # a dead enumerate index goes first, so that a manual counter beside it is seen as the loop's index
+                STATS["unenum"] = STATS.get("unenum", 0) + 1
+                stmts[k].target = stmts[k].target.elts[1]
+                stmts[k].iter = stmts[k].iter.args[0]
+
             def tail_reads2(name, _stmts=stmts, _k=k):
                 if top:
                     return False
@@ -928,6 +1009,17 @@ def _block(stmts, fx, occ, top=False):
     out = []
     for st in stmts:
         out.extend(_stmt(st, fx, occ))
+    # `t = E; return t` with t used nowhere else: return E
+    k = 1
+    while k < len(out):
+        a, b = out[k - 1], out[k]
+        if isinstance(b, ast.Return) and isinstance(b.value, ast.Name) and isinstance(a, ast.Assign) and len(a.targets) == 1 \
+                and isinstance(a.targets[0], ast.Name) and a.targets[0].id == b.value.id and occ.get(b.value.id, 0) == 2 \
+                and not b.value.id.startswith("__"):
+            STATS["rettemp"] = STATS.get("rettemp", 0) + 1
+            out[k - 1:k + 1] = [_loc(ast.Return(value=a.value), b)]
+            continue
+        k += 1
     return out
 
 
@@ -987,6 +1079,17 @@ def _stmt(st, fx, occ):
             STATS["unenum"] = STATS.get("unenum", 0) + 1
             st.target = st.target.elts[1]
             st.iter = st.iter.args[0]
+    r = _combinations_loop(st, fx)
+    if r is not None:
+        # the counter idiom produced here must stay as it is (the inner loop carries it): no second look by _block's counter pass
+        out_ = []
+        for x_ in r:
+            if isinstance(x_, ast.For):
+                x_.body[0].body = _block(x_.body[0].body, fx, occ)
+                out_.append(x_)
+            else:
+                out_.append(x_)
+        return out_
     r = _enum_to_range(st)
     if r is not None:
         return _block(r, fx, occ)
@@ -1206,8 +1309,75 @@ def _strip_annotations(fn):
                     h.body[k] = _loc(ast.Assign(targets=[st.target], value=st.value), st) if st.value is not None else _loc(ast.Pass(), st)
 
 
+_PURE_BUILTINS = {"max", "min", "len", "int", "abs", "slice", "float", "round"}
+
+
+def _slice_locals(fn):
+    """rows = slice(a, b); M[rows, i] = ...   ->   M[a:b, i] = ...   (the bounds are plain arithmetic over names that the
+    statements in between leave alone; the local is only used as an index)"""
+    changed = False
+    for node in ast.walk(fn):
+        for f in ("body", "orelse", "finalbody"):
+            b = getattr(node, f, None)
+            if not (isinstance(b, list) and b and isinstance(b[0], ast.stmt)):
+                continue
+            k = 0
+            while k < len(b):
+                st = b[k]
+                k += 1
+                if not (isinstance(st, ast.Assign) and len(st.targets) == 1 and isinstance(st.targets[0], ast.Name) and isinstance(st.value, ast.Call)
+                        and isinstance(st.value.func, ast.Name) and st.value.func.id == "slice" and not st.value.keywords and 1 <= len(st.value.args) <= 3):
+                    continue
+                if any(isinstance(c, ast.Call) and not (isinstance(c.func, ast.Name) and c.func.id in _PURE_BUILTINS and not c.keywords) for c in ast.walk(st.value)):
+                    continue
+                x = st.targets[0].id
+                reads = {n.id for n in ast.walk(st.value) if isinstance(n, ast.Name)} - _PURE_BUILTINS
+                region = b[k:]
+                total = sum(1 for n in ast.walk(fn) if isinstance(n, ast.Name) and n.id == x)
+                uses = [n for r in region for n in ast.walk(r) if isinstance(n, ast.Name) and n.id == x]
+                if len(uses) + 1 != total or not uses:
+                    continue
+                # every use is an index (alone or as a component of a tuple index)
+                idx_ok = set()
+                for r in region:
+                    for n in ast.walk(r):
+                        if isinstance(n, ast.Subscript):
+                            comps = n.slice.elts if isinstance(n.slice, ast.Tuple) else [n.slice]
+                            for c in comps:
+                                if isinstance(c, ast.Name) and c.id == x:
+                                    idx_ok.add(id(c))
+                if any(id(u) not in idx_ok for u in uses):
+                    continue
+                last_use = max(i for i, r in enumerate(region) if any(isinstance(n, ast.Name) and n.id == x for n in ast.walk(r)))
+                if any(isinstance(n, ast.Name) and n.id in reads and not isinstance(n.ctx, ast.Load) for r in region[:last_use + 1] for n in ast.walk(r)):
+                    continue
+                a = list(st.value.args)
+                none = lambda e: isinstance(e, ast.Constant) and e.value is None
+                if len(a) == 1:
+                    lo, hi, step = None, a[0], None
+                else:
+                    lo, hi, step = a[0], a[1], (a[2] if len(a) == 3 else None)
+                sl = ast.Slice(lower=None if lo is None or none(lo) else lo, upper=None if hi is None or none(hi) else hi,
+                               step=None if step is None or none(step) else step)
+
+                class S(ast.NodeTransformer):
+                    def visit_Name(self, n):
+                        if n.id == x and isinstance(n.ctx, ast.Load) and id(n) in idx_ok:
+                            return copy.deepcopy(sl)
+                        return n
+                for i in range(k, len(b)):
+                    b[i] = S().visit(b[i])
+                del b[k - 1]
+                k -= 1
+                ast.fix_missing_locations(fn)
+                STATS["slice_local"] = STATS.get("slice_local", 0) + 1
+                changed = True
+    return changed
+
+
 def _unalias(fn):
     _fresh_then_store(fn)
+    _slice_locals(fn)
     for _ in range(40):
         if not _unalias_once(fn):
             break
@@ -1257,6 +1427,10 @@ def _literal(e):
     return False
 
 
+def _literal_list(e):
+    return isinstance(e, ast.List) and all(_literal(x) or _literal_list(x) for x in e.elts)
+
+
 def module_constants(tree):
     """NAME = <literal> bound exactly once at module level and nowhere else in the module"""
     stores = {}
@@ -1273,6 +1447,16 @@ def module_constants(tree):
             stores[nm] = stores.get(nm, 0) + 1
         elif isinstance(n, (ast.FunctionDef, ast.AsyncFunctionDef, ast.ClassDef)):
             stores[n.name] = stores.get(n.name, 0) + 1
+    # names whose object may be changed in place somewhere in the module (method call, element store, handed to a callee
+    # that is not a plain constructor/inspector is not tracked: list tables are only inlined when merely indexed, iterated or passed)
+    touched = set()
+    for n in ast.walk(tree):
+        if isinstance(n, ast.Call) and isinstance(n.func, ast.Attribute) and isinstance(n.func.value, ast.Name) and n.func.attr in _MUTATORS:
+            touched.add(n.func.value.id)
+        elif isinstance(n, (ast.Subscript, ast.Attribute)) and not isinstance(n.ctx, ast.Load) and isinstance(n.value, ast.Name):
+            touched.add(n.value.id)
+        elif isinstance(n, ast.AugAssign) and isinstance(n.target, ast.Name):
+            touched.add(n.target.id)
     out = {}
     for st in tree.body:
         v = None
@@ -1282,6 +1466,8 @@ def module_constants(tree):
             nm, v = st.target.id, st.value
         if v is not None and _literal(v) and stores.get(nm, 0) == 1:
             out[nm] = v
+        elif v is not None and _literal_list(v) and stores.get(nm, 0) == 1 and nm not in touched:
+            out[nm] = v          # a table that is only ever read
     return out
 
 
